@@ -1,9 +1,12 @@
 """C03 — hash lookups stay exact while the table is incrementally rehashed
 (area hash: model lean/Cstl/Hash, harness harness/hash.c, generators and oracle tools/areas/hash.py)"""
 from areas import hash as H
+from areas import hashl
 
 
 def run(chk):
+    # pointer level: chains as links through the elements' node fields refine the list-level model
+    hashl.link_level_run(chk)
     return H.run_prop(chk)
 
 
